@@ -13,7 +13,7 @@ EXPLANATION = (
     "digest(subject(e)) exactly under level < limit (ordering table over level <,=,> limit). C15.5: the predicate filter is "
     "eq(digest(as_predicate(subject(a))), digest(envelope(p))) over assertions(self); the single-result forms over "
     "len in {0,1,2} give {Nonexistent|None, first, Ambiguous}. C15.6: subject()/assertions() return the matched node's fields, "
-    "else self / empty. C15.7: query-family panic sites are in the C16 ledger. Does not decide std collection semantics.")
+    "else self / empty; the case predicates is_<case>, is_subject_<case>, is_obscured and the accessors as_predicate/as_object/Assertion::predicate/object that all other rules treat as opaque have exactly their per-case tables. C15.7: query-family panic sites are in the C16 ledger. Does not decide std collection semantics.")
 TRUSTED = ['Vec::len/is_empty/index, Iterator::filter/collect have std semantics']
 FLOORS = {'C15.1': 7, 'C15.2': 6, 'C15.3': 6, 'C15.4': 2, 'C15.5': 4, 'C15.6': 2}
 P1, P2, P3, P4, P5 = [('param', i) for i in range(1, 6)]
@@ -332,7 +332,8 @@ _check_inner = check
 
 def check(ctx):
     _check_inner(ctx)
-    from .. import panic
+    from .. import panic, accessors
+    accessors.check_case_predicates(ctx, 'C15.6/case')
     F = ctx.F
     # the query family: every exported &self method of Envelope defined in the walk / queries / digest modules
     entries = [b for b in F.bodies if b.dk == 'AssocFn' and b.impl_self and ty_matches(b.impl_self, 'Envelope') and not b.impl_trait
